@@ -591,6 +591,129 @@ func c12SolSig(path string) (v c12SolVerify, ck c12SolCheck, entries []c12SolEnt
 	return
 }
 
+// ---- 4. ValidateConfirmSign as a statement program ----------------------------------------------------------------
+
+type c12VStmt struct {
+	Conds []string `json:"conds"` // enclosing branch conditions ("+c" / "-c")
+	Kind  string   `json:"kind"`  // assign | failIf | check | ret | other
+	Fn    string   `json:"fn"`    // assign / check: the callee; failIf: the condition
+	Args  []string `json:"args"`  // call arguments (ctx dropped)
+	Lhs   []string `json:"lhs"`   // assign: left-hand sides
+	Err   string   `json:"err"`   // failIf / check: what is returned (error constant or the Wrapf format's first words)
+}
+
+func (c *ctxT) c12ErrOf(body *ast.BlockStmt) string {
+	for _, st := range body.List {
+		if rs, ok := st.(*ast.ReturnStmt); ok && len(rs.Results) > 0 {
+			e := rs.Results[len(rs.Results)-1]
+			if ce, ok := e.(*ast.CallExpr); ok && len(ce.Args) > 0 {
+				if bl, ok := ce.Args[0].(*ast.BasicLit); ok {
+					t := strings.Trim(bl.Value, "\"`")
+					w := strings.Fields(t)
+					if len(w) > 2 {
+						w = w[:2]
+					}
+					return strings.Join(w, " ")
+				}
+			}
+			return solWS.ReplaceAllString(c.src(e), " ")
+		}
+	}
+	return ""
+}
+
+func (c *ctxT) c12CallParts(e ast.Expr) (string, []string, bool) {
+	ce, ok := e.(*ast.CallExpr)
+	if !ok {
+		return "", nil, false
+	}
+	fn := solWS.ReplaceAllString(c.src(ce.Fun), "")
+	var args []string
+	for _, a := range ce.Args {
+		t := solWS.ReplaceAllString(c.src(a), " ")
+		if t == "ctx" {
+			continue
+		}
+		args = append(args, t)
+	}
+	return fn, args, true
+}
+
+func (c *ctxT) c12VWalk(stmts []ast.Stmt, conds []string, out *[]c12VStmt) {
+	for _, st := range stmts {
+		switch s := st.(type) {
+		case *ast.AssignStmt:
+			if len(s.Rhs) == 1 {
+				if fn, args, ok := c.c12CallParts(s.Rhs[0]); ok {
+					var lhs []string
+					for _, l := range s.Lhs {
+						lhs = append(lhs, exprIdent(l))
+					}
+					*out = append(*out, c12VStmt{Conds: conds, Kind: "assign", Fn: fn, Args: args, Lhs: lhs})
+					continue
+				}
+			}
+			*out = append(*out, c12VStmt{Conds: conds, Kind: "other", Fn: solWS.ReplaceAllString(c.src(s), " ")})
+		case *ast.IfStmt:
+			cond := solWS.ReplaceAllString(c.src(s.Cond), " ")
+			returns := false
+			for _, b := range s.Body.List {
+				if _, ok := b.(*ast.ReturnStmt); ok {
+					returns = true
+				}
+			}
+			if s.Init != nil {
+				if as, ok := s.Init.(*ast.AssignStmt); ok && len(as.Rhs) == 1 && returns && s.Else == nil {
+					if fn, args, ok := c.c12CallParts(as.Rhs[0]); ok {
+						*out = append(*out, c12VStmt{Conds: conds, Kind: "check", Fn: fn, Args: args, Err: c.c12ErrOf(s.Body)})
+						continue
+					}
+				}
+			}
+			if returns && s.Else == nil && s.Init == nil {
+				// a binary condition is split into [lhs, operator, rhs]
+				args := []string{cond}
+				if be, ok := s.Cond.(*ast.BinaryExpr); ok {
+					args = []string{solWS.ReplaceAllString(c.src(be.X), " "), be.Op.String(), solWS.ReplaceAllString(c.src(be.Y), " ")}
+				}
+				*out = append(*out, c12VStmt{Conds: conds, Kind: "failIf", Fn: cond, Args: args, Err: c.c12ErrOf(s.Body)})
+				continue
+			}
+			c.c12VWalk(s.Body.List, append(append([]string{}, conds...), "+"+cond), out)
+			if el, ok := s.Else.(*ast.BlockStmt); ok {
+				c.c12VWalk(el.List, append(append([]string{}, conds...), "-"+cond), out)
+			}
+		case *ast.ReturnStmt:
+			var rs []string
+			for _, r := range s.Results {
+				rs = append(rs, solWS.ReplaceAllString(c.src(r), " "))
+			}
+			*out = append(*out, c12VStmt{Conds: conds, Kind: "ret", Args: rs})
+		default:
+			*out = append(*out, c12VStmt{Conds: conds, Kind: "other", Fn: solWS.ReplaceAllString(c.src(st), " ")})
+		}
+	}
+}
+
+// the decoder a Validate…Signature function calls, and its comparison
+func (c *ctxT) c12ValidateDecoder(rel, fn string) string {
+	fd := c.findFunc(rel, "", fn)
+	dec := ""
+	if fd == nil || fd.Body == nil {
+		return dec
+	}
+	ast.Inspect(fd.Body, func(n ast.Node) bool {
+		if ce, ok := n.(*ast.CallExpr); ok {
+			s := c.src(ce.Fun)
+			if strings.HasSuffix(s, "AddressFromSignature") && dec == "" {
+				dec = s
+			}
+		}
+		return true
+	})
+	return dec
+}
+
 // ---- emit ---------------------------------------------------------------------------------------------------------
 
 func leanPairs(ps [][2]string) string {
@@ -686,6 +809,42 @@ structure SigHash where
 	}
 	sb.WriteString("]\n\n")
 	c.facts["C12.sigHashes"] = sigs
+
+	// ValidateConfirmSign
+	var prog []c12VStmt
+	if fd := c.findFunc("x/crosschain/keeper", "Keeper", "ValidateConfirmSign"); fd != nil && fd.Body != nil {
+		c.c12VWalk(fd.Body.List, nil, &prog)
+	}
+	vparams := []string{}
+	if fd := c.findFunc("x/crosschain/keeper", "Keeper", "ValidateConfirmSign"); fd != nil {
+		vparams, _ = c.fnParams(fd)
+	}
+	sb.WriteString(`/-- one statement of ` + "`ValidateConfirmSign`" + `, in source order: the branch conditions it sits under, its kind
+("assign": lhs := fn(args); "failIf": ` + "`if fn { return nil, err }`" + `; "check": ` + "`if err = fn(args); err != nil { return nil, err }`" + `;
+"ret": return args), ctx arguments dropped, err = the error constant or the first words of the Wrapf text -/
+structure VStmt where
+  conds : List String
+  kind : String
+  fn : String
+  args : List String
+  lhs : List String
+  err : String
+  deriving DecidableEq, Repr
+
+`)
+	fmt.Fprintf(&sb, "def validateParams : List String := %s\n\n", c12LeanStrs(vparams))
+	sb.WriteString("def validateProg : List VStmt := [\n")
+	for i, v := range prog {
+		sep := ","
+		if i == len(prog)-1 {
+			sep = ""
+		}
+		fmt.Fprintf(&sb, "  ⟨%s, %s, %s, %s, %s, %s⟩%s\n", c12LeanStrs(v.Conds), leanStr(v.Kind), leanStr(v.Fn), c12LeanStrs(v.Args), c12LeanStrs(v.Lhs), leanStr(v.Err), sep)
+	}
+	sb.WriteString("]\n\n")
+	fmt.Fprintf(&sb, "/-- the decoder each Validate…Signature function calls -/\ndef validateDecoders : List (String × String) := [(\"types.ValidateEthereumSignature\", %s), (\"trontypes.ValidateTronSignature\", %s)]\n\n",
+		leanStr(c.c12ValidateDecoder("x/crosschain/types", "ValidateEthereumSignature")), leanStr(c.c12ValidateDecoder("x/tron/types", "ValidateTronSignature")))
+	c.facts["C12.validateProg"] = prog
 
 	sb.WriteString(`/-- an argument of ` + "`abi.encodePacked(...)`" + ` in verifySig: a string literal (its bytes) or a parameter (name, declared type) -/
 inductive SolPacked where
